@@ -513,6 +513,15 @@ impl rustc_driver::Callbacks for Cb {
                 DefKind::Fn => "fn",
                 DefKind::AssocFn => "method",
                 DefKind::Closure => "closure",
+                DefKind::Const { .. } | DefKind::AssocConst { .. } => {
+                    // the initialiser of a non-generic constant item (a literal table): exported as a body of kind "const"
+                    if tcx.generics_of(did).count() == 0 {
+                        let path = tcx.def_path_str(did);
+                        let body = tcx.mir_for_ctfe(did);
+                        cx.body(&mut f, &path, "const", did, body, "");
+                    }
+                    continue;
+                }
                 _ => continue,
             };
             let path = tcx.def_path_str(did);
